@@ -785,7 +785,8 @@ def js_skeleton(fn, labels):
 
 THEOREMS = ["direct_correct", "direct_unique", "direct_correct_ctx", "interp_sound_js", "drivers_agree",
             "desugar_once", "desugar_incdec_once", "spec_trace", "desugar_trace", "naive_rewrite_wrong",
-            "names_distinct_plain", "names_fresh_plain", "renderInj_ascii", "names_distinct_plain_ascii", "render_clash",
+            "names_distinct_plain", "names_distinct_plain_seeded", "names_fresh_plain", "console_was_not_reserved",
+            "encodeIdent_inj_utf8", "names_distinct_plain_valid", "renderInj_ascii", "names_distinct_plain_ascii", "render_clash",
             "encodeIdent_ascii_id", "tuple_assign_counterexample", "tuple_assign_partial"]
 ENV_THEOREMS = ["reserved_covers_es", "reserved_model_exact", "reserved_covers_used", "keywords_alone_miss_console"]
 
@@ -884,13 +885,23 @@ def witness_jobs():
 # running programs with retries (the machine is shared: a timed-out job is re-run alone)
 # --------------------------------------------------------------------------------------
 
+def _run_jobs(jobs, par):
+    try:
+        return PR.run_jobs(jobs, par=par, timeout=14400)
+    except FileNotFoundError:
+        # shared machine: somebody's clean-up removed harness/bin/gvh.<tag> under us — rebuild it and go on
+        C.log("[C01] harness binary vanished; rebuilding it")
+        C.build_gvh("gvh")
+        return PR.run_jobs(jobs, par=par, timeout=14400)
+
+
 def run_prog_jobs(jobs, par=8):
-    res = PR.run_jobs(jobs, par=par, timeout=14400)
+    res = _run_jobs(jobs, par)
     late = [i for i, r in enumerate(res) if any(ro.get("class") == "timeout" for ro in r["runs"].values())]
     if late:
         # the machine is shared: a timed-out job is re-run (almost) alone before it is treated as anything
         C.log("[C01] %d job(s) timed out (%s …); re-running them with parallelism 2" % (len(late), res[late[0]]["id"]))
-        again = PR.run_jobs([jobs[i] for i in late], par=2, timeout=14400)
+        again = _run_jobs([jobs[i] for i in late], 2)
         for i, r in zip(late, again):
             res[i] = r
     return res
@@ -1272,10 +1283,23 @@ def run(tier, seed):
     chk.assumptions = ["translateExpr as a whole is not modelled (numeric / copy / map / string / interface / panic parts belong to C06, "
                        "C07, C15, C14, C09, C08); primitive actions are opaque in the theorems and concrete in the driver",
                        "'no internal error' and 'valid JavaScript' are observed on generated programs, not proved",
-                       "goto, defer, select and flattened (blocking) functions are C02/C03/C08 territory; here only observed",
+                       "goto is never translated in direct mode: analysis marks every function containing a goto as flattened "
+                       "(internal/analysis/info.go:401-405) and statements.go:320 only emits the `$s = N; continue;` form, so goto "
+                       "belongs to C02's flatten_correct; here goto, defer, select and flattened (blocking) functions are only "
+                       "observed (corpus case `goto`, generated functions that call func values)",
                        "desugar_once assumes opaque operands do not write memory the statement reads (Go leaves that order open)"]
+    phase = {}
+    t_last = [time.time(), time.process_time(), sum(os.times()[2:4])]
+
+    def mark(name):
+        now = [time.time(), time.process_time(), sum(os.times()[2:4])]
+        phase[name] = {"wall_s": round(now[0] - t_last[0], 1), "cpu_self_s": round(now[1] - t_last[1], 1),
+                       "cpu_children_s": round(now[2] - t_last[2], 1)}
+        t_last[:] = now
+        chk.extra["phase_times"] = phase
     C.build_gvh("gvh_c01")
     PR.ensure_gvh()
+    mark("build-harness")
     scratch = C.scratch("c01")
     try:
         # ---- regenerated facts + proofs -----------------------------------------------------------------------
@@ -1307,6 +1331,7 @@ def run(tier, seed):
                                                     [w for w in sorted(used) if w not in seeded])))
                 chk.proof.build_log = envp.build_log
         env_broken = bool(chk.proof.failed)
+        mark("facts+lean-proofs")
 
         # ---- k: known-finding witnesses + corpus ---------------------------------------------------------------
         jobs = witness_jobs()
@@ -1338,8 +1363,10 @@ def run(tier, seed):
                                  canon(js_obs) + (" [syntax error: %s]" % parse_bad if parse_bad else ""), canon(nat_obs),
                                  signature=sigs.get(r["id"]))
 
+        mark("witnesses+corpus")
         # ---- c: names ------------------------------------------------------------------------------------------
         names_tie(chk, tier, seeded)
+        mark("names")
 
         # ---- a + b: generated programs ------------------------------------------------------------------------
         nprog = 36 if tier == "quick" else 1000
@@ -1358,10 +1385,12 @@ def run(tier, seed):
                             c["go"] = "direct"
                 gens.append(g)
             program_batch(chk, gens, "p%d_" % done, scratch)
+            C.log("[C01] generated programs %d/%d done, %.0f s" % (done + n, nprog, time.time() - chk.t0))
             for g in gens:
                 for k, v in g.kinds.items():
                     chk.count("gen:" + k, v)
             done += n
+        mark("generated-programs")
         # widened search when an obligation or a tie is broken and no failing input has been found yet
         if (env_broken or chk.tie_breaks) and not any(chk.known_match(m.get("signature")) is None for m in chk.mismatches):
             chk.notes.append("obligation / tie broken: widened search with targeted generation")
